@@ -57,4 +57,34 @@ theorem handler_wake_order :
     handler_wake_ops = ["syscall.Read(p.wop.FD,p.buf)", "atomic.StoreUint32(&p.trigger,0)",
                         "syscall.Close(p.wop.FD)", "syscall.Close(p.fd)", "p.onhups()"] := by decide
 
+/-- **One iteration of `Wait`** (the batch structure `Netpoll.Poll.OpCache` and `Netpoll.Poll.nextSize` assume, and the loop body the
+C10 harness executes itself step by step): the event array is grown at the TOP of the iteration – from the size of the batch that
+has already been dispatched, never between a fetch and its dispatch (`Reset` replaces `p.events`) –, then `EpollWait` fetches,
+`p.Handler` dispatches the whole batch, and `p.opcache.free()` runs once per iteration, at loop-body level, AFTER the handler has
+returned: a slot released between the fetch and the dispatch of a batch stays in `freelist` (`Loc.freelist`, not allocatable)
+until no fetched event can refer to it any more (`Act.endBatch`). -/
+theorem wait_loop_order :
+    wait_loop_ops = ["1:p.Reset", "0:EpollWait", "0:p.Handler", "0:p.opcache.free"] := by decide
+
+/-- the loop body statement by statement (EINTR tolerance, `n <= 0` rounds skip dispatch and free, exit when the handler says so) -/
+theorem wait_loop_body_expected :
+    wait_loop_body =
+      ["ifn==p.size&&p.size<128*1024{p.Reset(p.size<<1,caps)}",
+       "n,err=EpollWait(p.fd,p.events,msec)",
+       "iferr!=nil&&err!=syscall.EINTR{returnerr}",
+       "ifn<=0{msec=-1runtime.Gosched()continue}",
+       "msec=0",
+       "ifp.Handler(p.events[:n]){returnnil}",
+       "p.opcache.free()"] := by decide
+
+/-- **The hang-up queue holds callbacks, not slots.** `appendHup` copies `operator.OnHup` into `p.hups` while the poller still holds
+the slot's token (before the detach and before `done()`), `p.hups` is a list of funcs and the goroutine started by `onhups` calls
+exactly those funcs: a hang-up recorded for a connection can only ever reach THAT connection's `onHup`, however late the goroutine
+runs and whoever owns the slot by then (`Netpoll.Poll.OpCache.Act.runHup … (late := false)`). -/
+theorem hup_queue_captures_callback :
+    appendHup_stmts = ["p.hups=append(p.hups,operator.OnHup)", "p.detach(operator)", "operator.done()"] ∧
+    hups_elem_type = "[]func(p Poll) error" ∧
+    onhups_stmts = ["iflen(p.hups)==0{return}", "hups:=p.hups", "p.hups=nil",
+                    "gofunc(onhups[]func(pPoll)error){fori:=rangeonhups{ifonhups[i]!=nil{onhups[i](p)}}}(hups)"] := by decide
+
 end Netpoll.Tie.Poll
